@@ -170,6 +170,20 @@ Theorem C20_win_replay_history :
 Proof. exact win_replay_history_wf. Qed.
 Print Assumptions C20_win_replay_history.
 
+(* The same at the level of the emitter (recursive watch): over a whole history, one operation at a
+   time, each operation's notifications cut into reads in ANY way and the oracles of each moment
+   answering for the tree after that operation, what WindowsApiEmitter.queue_events queues in total
+   (pending old name carried across calls) is exactly the stream of rendered contracts, and replaying
+   it reproduces the final tree. *)
+Theorem C20_win_history :
+  forall root ops steps f last,
+  root <> [] -> last_is_sep root = false -> wf_fs f -> win_steps_ok root steps f ops ->
+  let subs := map (fun st => w_sub (fst st)) steps in
+  fst (win_run true root steps last) = map (render root) (win_history subs f ops) /\
+  Permutation (replay (view_of f) (win_history subs f ops)) (view_of (fold_left apply_op ops f)).
+Proof. exact win_emitter_history. Qed.
+Print Assumptions C20_win_history.
+
 (* Earlier, weaker form (kept): histories of any length, one operation per batch, in which every renamed entry is a
    leaf (a file or an empty directory) and every arriving directory is empty (so the walked tree has
    no descendants): replaying the contract stream reproduces the tree exactly.  Renames and arrivals of
